@@ -580,6 +580,54 @@ CTOR_OPS = {("f32", "from"): 23, ("Quantity", "from"): 20, ("Quantity", "dimensi
 METHOD_OPS = {"get_value": 60, "get_position": 57, "get_velocity": 58, "get_acceleration": 59, "abs": 11}
 
 
+DIM_P = 'any(feature="dim_check_release",all(debug_assertions,feature="dim_check_debug"))'
+
+
+def strip_cfg(t, chk):
+    """Remove the items / statements / struct-literal fields whose `#[cfg(..)]` attribute is false when dimension checking is
+    `chk`, and the attribute itself where it is true.  Only the crate's one dimension-check predicate (and its negation) is
+    decided; every other attribute is left in place.  (coq/gen_theorems/C19Features.v proves that this cfg expression is the
+    model's `chk` flag.)"""
+    out = []
+    i = 0
+    n = len(t)
+    while i < n:
+        if t[i][1] == "#" and i + 2 < n and t[i + 1][1] == "[" and t[i + 2][1] == "cfg":
+            e = skip_balanced(t, i + 1, "[", "]")
+            txt = "".join(q[1] for q in t[i + 4:e - 2])
+            if txt == DIM_P: keep = chk
+            elif txt == "not(" + DIM_P + ")": keep = not chk
+            else:
+                out += t[i:e]; i = e; continue
+            if keep:
+                i = e; continue
+            # skip further attributes, then the item / statement / field the attribute applies to
+            j = e
+            while j < n and t[j][1] == "#" and t[j + 1][1] == "[":
+                j = skip_balanced(t, j + 1, "[", "]")
+            k = j
+            while k < n and t[k][1] in ("pub", "const", "unsafe"): k += 1
+            if k < n and t[k][1] == "fn":
+                b = k
+                while t[b][1] not in ("{", ";"): b += 1
+                j = skip_balanced(t, b, "{", "}") if t[b][1] == "{" else b + 1
+            else:
+                d = 0
+                while j < n:
+                    v = t[j][1]
+                    if v in ("(", "[", "{"): d += 1
+                    elif v in (")", "]", "}"):
+                        if d == 0: break
+                        d -= 1
+                    elif v in (",", ";") and d == 0:
+                        j += 1; break
+                    j += 1
+            i = j
+            continue
+        out.append(t[i]); i += 1
+    return out
+
+
 def qs(s):
     return '"%s"' % s
 
@@ -682,6 +730,9 @@ class Emitter:
         if k == "mcall" and e[2] == "len" and not e[3]: return True
         if k == "path" and len(e[1]) == 1 and e[1][0] in self.const_generics: return True
         return False
+
+    def is_exp_field(self, e):
+        return e[0] == "field" and e[2] in ("millimeter_exp", "second_exp")
 
     def find_array_input(self, ast):
         if isinstance(ast, tuple):
@@ -901,6 +952,8 @@ class Emitter:
             return "(EField %s %s)" % (self.expr(e[1]), qs(e[2]))
         if k == "unary":
             if e[1] in ("*", "&"): return self.expr(e[2])
+            if e[1] == "-" and e[2][0] == "num" and re.fullmatch(r"[0-9_]+(_?(i8|i16|i32|i64|isize))?", e[2][1]):
+                return "(ELit (VI (-%d)))" % int(re.sub(r"_?(i8|i16|i32|i64|isize)$", "", e[2][1]).replace("_", ""))
             if e[1] == "-" and self.is_int(e[2]): return "(EInt 9 [%s])" % self.expr(e[2])
             if e[1] == "-": return "(EOp 9 [%s])" % self.expr(e[2])
             if e[1] == "!": return "(EOp 10 [%s])" % self.expr(e[2])
@@ -908,6 +961,9 @@ class Emitter:
             o = e[1]
             if o in ("+", "-") and self.is_usize(e[2]) and self.is_usize(e[3]):
                 return "(EUs %d %s %s)" % (OPS[o], self.expr(e[2]), self.expr(e[3]))
+            if o in ("+", "-") and self.is_exp_field(e[2]) and self.is_exp_field(e[3]):
+                # i8 exponents of a Unit: unbounded integers in the embedding (wrap-around beyond +-127 is not modelled)
+                return "(EUs %d %s %s)" % (1 if o == "+" else 4, self.expr(e[2]), self.expr(e[3]))
             if o == "%" and self.is_usize(e[2]) and self.is_usize(e[3]):
                 return "(EUs 3 %s %s)" % (self.expr(e[2]), self.expr(e[3]))
             if o in OPS and self.is_int(e[2]) and self.is_int(e[3]):
@@ -918,6 +974,17 @@ class Emitter:
             if o == "||": return "(EIf %s (ELit (VB true)) %s)" % (self.expr(e[2]), self.expr(e[3]))
         if k == "try": return "(ETry %s)" % self.expr(e[1])
         if k == "array": return "(EArr %s)" % self.lst([self.expr(x) for x in e[1]])
+        if k == "struct" and self.res(e[1])[-1] == "Unit":
+            fs = dict(e[2])
+            if not fs: return "(EOp 34 [(ELit (VI 0)); (ELit (VI 0))])"          # the zero-sized Unit of an unchecked build
+            if sorted(fs) != ["millimeter_exp", "second_exp"]: raise ParseError("fields of a Unit literal")
+            t1, t2 = self.fresh("f"), self.fresh("f")
+            order = [f for f, _ in e[2]]
+            inner = "(EOp 34 [(EVar %s); (EVar %s)])" % (qs(t1), qs(t2))
+            names = {"millimeter_exp": t1, "second_exp": t2}
+            for f in reversed(order):
+                inner = "(ELet (PVar %s) %s %s)" % (qs(names[f]), self.expr(fs[f]), inner)
+            return inner
         if k == "struct" and self.res(e[1])[-1] in ("Quantity", "State"):
             ty = self.res(e[1])[-1]
             order = ["value", "unit"] if ty == "Quantity" else ["position", "velocity", "acceleration"]
@@ -1077,6 +1144,8 @@ class Emitter:
             if name in ("unwrap",) and not args: return "(EUnwrap %s)" % self.expr(recv)
             if name == "expect" and len(args) == 1: return "(EUnwrap %s)" % self.expr(recv)
             if name == "is_err" and not args: return "(EIsErr %s)" % self.expr(recv)
+            if name == "const_eq" and len(args) == 1:
+                return "(EOp 40 [%s; %s])" % (self.expr(recv), self.expr(args[0]))
             if name == "eq_assume_true" and len(args) == 1:
                 return "(EOp 41 [%s; %s])" % (self.expr(recv), self.expr(args[0]))
             if name == "eq_assume_false" and len(args) == 1:
@@ -1120,6 +1189,8 @@ class Emitter:
         if k == "macro":
             if e[1] in ("debug_assert_eq", "assert_eq") and len(e[2]) == 2:
                 return "(EAssertEq %s %s)" % (self.expr(e[2][0]), self.expr(e[2][1]))
+            if e[1] == "assert" and len(e[2]) == 1:
+                return "(EIf %s EUnit (EUnwrap ENone))" % self.expr(e[2][0])
             if e[1] in ("unimplemented", "panic", "unreachable", "todo"):
                 return "(EUnwrap ENone)"
             raise ParseError("macro %s!" % e[1])
